@@ -32,6 +32,8 @@ typedef int swprintf_t(wchar_t *, size_t, size_t, const wchar_t *, ...);
 typedef int tmpfile_t(FILE **);
 typedef int strcpy_t(char *, size_t, const char *, size_t);
 typedef int memcpy_t(void *, size_t, const void *, size_t, size_t, size_t);
+typedef struct tm *localtime_t(const time_t *, struct tm *);
+typedef int fopen_t(FILE **, const char *, const char *);
 typedef char *strtok_t(char *, size_t *, const char *, char **, size_t);
 typedef int strerror_t(char *, size_t, int, size_t);
 typedef int wcsnorm_t(wchar_t *, size_t, const wchar_t *, int, size_t *, size_t);
@@ -42,7 +44,7 @@ typedef int wcsicmp_t(const wchar_t *, size_t, const wchar_t *, size_t, int *, s
 typedef int snprintf_t(char *, size_t, size_t, const char *, ...);
 typedef int vswprintf_dummy_t(void);
 SYM(qsort); SYM(asctime); SYM(ctime); SYM(sprintf); SYM(swprintf); SYM(tmpfile); SYM(strcpy); SYM(memcpy);
-SYM(strtok); SYM(strerror); SYM(wcsnorm); SYM(gmtime); SYM(getenv); SYM(bsearch); SYM(wcsicmp); SYM(snprintf);
+SYM(localtime); SYM(fopen); SYM(strtok); SYM(strerror); SYM(wcsnorm); SYM(gmtime); SYM(getenv); SYM(bsearch); SYM(wcsicmp); SYM(snprintf);
 static swprintf_t *snwprintf_p;
 
 static int cmp_int(const void *a, const void *b, void *ctx) { (void)ctx; int x = *(const int *)a, y = *(const int *)b; return (x > y) - (x < y); }
@@ -55,9 +57,27 @@ static void op_qsort_big(OpCtx *c) {
     c->rc = qsort_p(a, 3, 300, cmp_big, NULL, BOSU); put(c, a, 600);
 }
 static void mk_tm(struct tm *t, int v) { memset(t, 0, sizeof *t); t->tm_year = 100 + v * 7; t->tm_mon = 3 + v; t->tm_mday = 5 + v; t->tm_hour = 1 + v; t->tm_wday = (2 + v) % 7; }
+/* ---- libc functions that keep or hand out process-wide state by contract.  They are defined here, in the executable, so
+ * that calls coming out of the shared library resolve to them (-rdynamic); each records that it was called during an
+ * operation and forwards to the real function.  State kept outside the library's own static segment (libc's localtime
+ * buffer, the process umask) is visible to the checks only through this list. */
+#include <sys/stat.h>
+static const char *deny_hit; static volatile int in_op;
+#define REAL(name) static __typeof__(name) *real; if (!real) real = (__typeof__(name) *)dlsym(RTLD_NEXT, #name)
+struct tm *localtime(const time_t *t) { REAL(localtime); if (in_op) deny_hit = "localtime"; return real(t); }
+struct tm *gmtime(const time_t *t) { REAL(gmtime); if (in_op) deny_hit = "gmtime"; return real(t); }
+char *asctime(const struct tm *t) { REAL(asctime); if (in_op) deny_hit = "asctime"; return real(t); }
+char *ctime(const time_t *t) { REAL(ctime); if (in_op) deny_hit = "ctime"; return real(t); }
+char *strtok(char *a, const char *b) { REAL(strtok); if (in_op) deny_hit = "strtok"; return real(a, b); }
+int rand(void) { REAL(rand); if (in_op) deny_hit = "rand"; return real(); }
+mode_t umask(mode_t m) { REAL(umask); if (in_op) deny_hit = "umask"; return real(m); }
+char *tmpnam(char *b) { REAL(tmpnam); if (in_op) deny_hit = "tmpnam"; return real(b); }
 static void op_asctime26(OpCtx *c) { char d[26]; struct tm t; mk_tm(&t, c->v); memset(d, 0x55, sizeof d); c->rc = asctime_p(d, 26, &t, BOSU); put(c, d, 26); }
 static void op_asctime130(OpCtx *c) { char d[130]; struct tm t; mk_tm(&t, c->v); memset(d, 0x55, sizeof d); c->rc = asctime_p(d, 130, &t, BOSU); put(c, d, 130); }
 static void op_ctime(OpCtx *c) { char d[26]; time_t t = 1000000000 + c->v * 86400 * 400; memset(d, 0x55, sizeof d); c->rc = ctime_p(d, 26, &t, BOSU); put(c, d, 26); }
+static void op_ctime_far(OpCtx *c) { char d[64]; time_t t = 253402300800LL + 86400LL * 400 * (c->v + 1); memset(d, 0x55, sizeof d); c->rc = ctime_p(d, 64, &t, BOSU); put(c, d, 64); }
+static void op_localtime(OpCtx *c) { struct tm tmv; time_t t = 1000000000 + c->v * 86400 * 400; memset(&tmv, 0x55, sizeof tmv); void *r = localtime_p(&t, &tmv); c->rc = r != NULL; put(c, &tmv.tm_year, sizeof(int)); put(c, &tmv.tm_yday, sizeof(int)); }
+static void op_fopen_w(OpCtx *c) { char path[256]; snprintf(path, sizeof path, "%s/c12-fopen-%d-%d.tmp", getenv("C12_TMPDIR") ? getenv("C12_TMPDIR") : ".", (int)getpid(), c->v); FILE *f = NULL; c->rc = fopen_p(&f, path, "w"); struct stat st; int mode = -1; if (f) { fclose(f); if (!stat(path, &st)) mode = st.st_mode & 0777; unlink(path); } put(c, &mode, sizeof mode); }
 static void op_sprintf_Lf(OpCtx *c) { char d[64]; memset(d, 0x55, 64); c->rc = sprintf_p(d, 64, BOSU, "%Lf|%d", (long double)(1.5 + c->v), 7 + c->v); put(c, d, 64); }
 static void op_sprintf_a(OpCtx *c) { char d[64]; memset(d, 0x55, 64); c->rc = sprintf_p(d, 64, BOSU, "%a|%d", 1.5 + c->v, 7 + c->v); put(c, d, 64); }
 static void op_sprintf_big(OpCtx *c) { char d[64]; memset(d, 0x55, 64); c->rc = sprintf_p(d, 64, BOSU, "%f|", 1e10 + 12345.0 * (c->v + 1)); put(c, d, 64); }
@@ -88,7 +108,7 @@ static void op_snprintf_trunc(OpCtx *c) { char d[8]; memset(d, 0x55, 8); c->rc =
 
 static struct { const char *name; OpFn fn; } ops[] = {
     { "qsort_int", op_qsort_int }, { "qsort_big", op_qsort_big }, { "asctime26", op_asctime26 }, { "asctime130", op_asctime130 },
-    { "ctime", op_ctime }, { "sprintf_Lf", op_sprintf_Lf }, { "sprintf_a", op_sprintf_a }, { "sprintf_big", op_sprintf_big },
+    { "ctime", op_ctime }, { "ctime_far", op_ctime_far }, { "localtime", op_localtime }, { "fopen_w", op_fopen_w }, { "sprintf_Lf", op_sprintf_Lf }, { "sprintf_a", op_sprintf_a }, { "sprintf_big", op_sprintf_big },
     { "sprintf_e", op_sprintf_e }, { "sprintf_d", op_sprintf_d }, { "sprintf_ls", op_sprintf_ls }, { "swprintf_small", op_swprintf_small },
     { "swprintf_ok", op_swprintf_ok }, { "snwprintf_small", op_snwprintf_small }, { "tmpfile", op_tmpfile }, { "strcpy", op_strcpy },
     { "strcpy_fail", op_strcpy_fail }, { "memcpy_fail", op_memcpy_fail }, { "memcpy", op_memcpy }, { "strtok", op_strtok }, { "strerror", op_strerror },
@@ -202,7 +222,10 @@ static void footprint(void) {
         OpCtx c; memset(&c, 0, sizeof c); c.v = v;
         tv_restore();
         TvAccess *al;
+        deny_hit = NULL; in_op = 1;
         tv_log_begin(); ops[o].fn(&c); int n = tv_log_end(&al);
+        in_op = 0;
+        if (deny_hit) printf("{\"t\":\"viol\",\"sig\":\"C12|process-wide-state|%s|calls-%s\",\"case\":\"footprint %s %d\"}\n", ops[o].name, deny_hit, ops[o].name, v);
         size_t first, nb; int d = tv_diff(&first, &nb);
         int nw = 0; char wsym[128] = "";
         for (int i = 0; i < n; i++) if (al[i].write) { if (!nw) { tv_symbolize(al[i].addr, wsym, sizeof wsym); char *plus = strchr(wsym, '+'); if (plus) *plus = 0; } nw++; }
@@ -233,7 +256,7 @@ int main(int argc, char **argv) {
     if (!L) { fprintf(stderr, "cannot load CAT_LIB: %s\n", dlerror()); return 2; }
     LOAD(qsort, "_qsort_s_chk"); LOAD(asctime, "_asctime_s_chk"); LOAD(ctime, "_ctime_s_chk"); LOAD(sprintf, "_sprintf_s_chk");
     LOAD(swprintf, "_swprintf_s_chk"); LOAD(tmpfile, "tmpfile_s"); LOAD(strcpy, "_strcpy_s_chk"); LOAD(memcpy, "_memcpy_s_chk");
-    LOAD(strtok, "_strtok_s_chk"); LOAD(strerror, "_strerror_s_chk"); LOAD(wcsnorm, "_wcsnorm_s_chk"); LOAD(gmtime, "gmtime_s");
+    LOAD(localtime, "localtime_s"); LOAD(fopen, "fopen_s"); LOAD(strtok, "_strtok_s_chk"); LOAD(strerror, "_strerror_s_chk"); LOAD(wcsnorm, "_wcsnorm_s_chk"); LOAD(gmtime, "gmtime_s");
     LOAD(getenv, "_getenv_s_chk"); LOAD(bsearch, "_bsearch_s_chk"); LOAD(wcsicmp, "_wcsicmp_s_chk"); LOAD(snprintf, "_snprintf_s_chk");
     snwprintf_p = dlsym(L, "_snwprintf_s_chk"); if (!snwprintf_p) { fprintf(stderr, "missing snwprintf\n"); return 2; }
     {   /* counting handlers through the public API: each thread's invocations are part of its result */
